@@ -312,14 +312,16 @@ def write_evidence(prop, tier, seed, level, coverage, wall, violations=0, assump
     ev = dict(property_id=prop, tier=tier, seed=int(seed), level=level, coverage=coverage, wall_s=round(wall, 2),
               violations=int(violations), assumptions=list(assumptions))
     path = os.path.join(EVIDENCE, prop + '.json')
-    try:
-        import jsonschema
-        schema = json.load(open('/root/.vp/EVIDENCE.schema.json')) if os.path.exists('/root/.vp/EVIDENCE.schema.json') else json.load(open(os.path.join(VERIF, 'orch', 'EVIDENCE.schema.json')))
-        jsonschema.validate(ev, schema)
-    except ImportError:
-        pass
     tmp = path + '.tmp'
-    json.dump(ev, open(tmp, 'w'), indent=1, default=str)
+    with open(tmp, 'w') as f:
+        json.dump(ev, f, indent=1, default=str)
+    schema = '/root/.vp/EVIDENCE.schema.json'
+    if not os.path.exists(schema):
+        schema = os.path.join(VERIF, 'orch', 'EVIDENCE.schema.json')
+    if shutil.which('python3-vt'):
+        p = sh(['python3-vt', '-c', 'import json,jsonschema,sys; jsonschema.validate(json.load(open(sys.argv[1])), json.load(open(sys.argv[2])))', tmp, schema], timeout=60)
+        if p.returncode != 0:
+            raise Broken('evidence does not validate: %s' % p.stderr[-1500:])
     os.replace(tmp, path)
     return path
 
